@@ -77,7 +77,7 @@ def name_of(nm):
     return nm, nm
 
 
-def make_fn(token, name, is_async):
+def make_fn(token, name, is_async, wrapped=False):
     if is_async:
         async def fn():
             return token
@@ -86,6 +86,17 @@ def make_fn(token, name, is_async):
             return token
     fn.__name__ = name
     fn.__qualname__ = name
+    if wrapped:
+        # an alias: a functools.wraps wrapper around an implementation function, given its own name afterwards (what a
+        # decorator factory producing get_v1 / get_v2 from one implementation does). Its name is ITS __name__.
+        import functools
+        fn.__name__ = fn.__qualname__ = 'impl'
+
+        @functools.wraps(fn)
+        def alias(*a, **k):
+            return fn(*a, **k)
+        alias.__name__ = alias.__qualname__ = name
+        return alias
     return fn
 
 
@@ -133,6 +144,13 @@ def make_views(is_async):
         def _priv(self):
             return 'V0._priv'
 
+        # a trailing underscore (the customary way around keywords / builtins) is part of the name
+        def list_(self):
+            return 'V0.list_'
+
+        def import_(self):
+            return 'V0.import_'
+
         def __dd__(self):
             return 'V0.__dd__'
 
@@ -178,7 +196,8 @@ def make_views(is_async):
     return [V0, V1, V2, V3]
 
 
-VIEW_PUBLIC = [{'pm': 'V0.pm', 'alpha': 'V0.alpha', 'st': 'V0.st', 'cm': 'V0.cm', 'inherited': 'view:inherited', 'mixed': 'mix0:mixed'},
+VIEW_PUBLIC = [{'pm': 'V0.pm', 'alpha': 'V0.alpha', 'st': 'V0.st', 'cm': 'V0.cm', 'inherited': 'view:inherited', 'mixed': 'mix0:mixed',
+                'list_': 'V0.list_', 'import_': 'V0.import_'},
                {'pm': 'V1.pm', 'helper': 'mix1:helper', 'shelper': 'mix1:shelper', 'context': 'V1.context', 'method': 'V1.method'},
                {'pm': 'V2.pm', 'helper': 'V2.helper', 'shelper': 'mix1:shelper', 'helper_data': 'V2.helper_data', 'context': 'V2.context',
                 'method': 'V2.method'},
@@ -194,7 +213,7 @@ def run_history(ctx, ops, is_async):
     cls = (json.dumps(ops), is_async)
     dk = 'async' if is_async else 'sync'
     ctx.hit('dispatcher:' + dk)
-    fns = [make_fn(f'fn{i}', FN_NAMES[i], is_async and i != 1) for i in range(len(FN_NAMES))]
+    fns = [make_fn(f'fn{i}', FN_NAMES[i], is_async and i != 1, wrapped=(i in (1, 3))) for i in range(len(FN_NAMES))]
     views = make_views(is_async)
     regs = [pjrpc.server.MethodRegistry(prefix=p) for p in PREFIXES]
     disp = (pjrpc.server.AsyncDispatcher if is_async else pjrpc.server.Dispatcher)()
